@@ -35,6 +35,8 @@ type modEntry struct {
 }
 
 type FnGen struct {
+	acMatched map[int]bool // at-call clauses of the contract that matched some call site
+	closureWritten map[string]bool // prefixes of private-local components whose variable a closure may assign
 	g        *Gen
 	fn       *ssa.Function
 	c        *Contract
@@ -885,6 +887,19 @@ func (fg *FnGen) generate() (err error) {
 	fg.g.strLits = map[string]int{}
 	fg.findLoops()
 	fg.collectDebugNames()
+	fg.acMatched = map[int]bool{}
+	defer func() {
+		// an `at call` clause that matches no call site checks nothing: that is a hole in the contract (or the code
+		// under contract no longer makes the call), never a silent pass
+		if err == nil && fg.c != nil {
+			for i, ac := range fg.c.AtCalls {
+				if !fg.acMatched[i] && !ac.Optional {
+					err = fmt.Errorf("contract error: `at call %s` matches no call site in %s (clause: %s)", ac.Callee, fg.key, ac.Clause.Src)
+					return
+				}
+			}
+		}
+	}()
 	for pass := 1; pass <= 2; pass++ {
 		fg.g.typeIDs = map[string]int{}
 		fg.g.strLits = map[string]int{}
